@@ -229,6 +229,15 @@ def monotone_array(name, n):
     return arr
 
 
+def monotone_pair(arr, i, j):
+    """instance of the invariant 'strictly increasing' of a monotone_array for one pair of indices
+    (the adjacent instances given automatically do not chain between distant symbolic indices)"""
+    ti, tj, tn = T.tz(i), T.tz(j), T.tz(arr.length)
+    uf = arr.uf
+    T.cur().add_fact(z3.Implies(z3.And(ti >= 0, tj < tn, ti < tj), uf(ti) < uf(tj)))
+    T.cur().add_fact(z3.Implies(z3.And(ti >= 0, ti < tn, ti == tj), uf(ti) == uf(tj)))
+
+
 def abstract_mesh1d(chk, n, name="xf", cls="mesh1d"):
     """instance of the real mesh class whose constructor is replaced by its contract (C20):
     ncell+1 strictly increasing faces, centres at the face midpoints, length = xf[n]-xf[0]"""
